@@ -4,7 +4,7 @@
 From Coq Require Import List NArith Bool Arith Lia ZifyN ZifyNat ZifyBool.
 Import ListNotations.
 From GM Require Import Base.Topic Base.Msg Model.SubTrie Model.SubSpec Model.RetTrie Model.Queue Model.Limiter
-                       Model.TopicMatch Model.Broker Proofs.TopicP Proofs.SubTrieP.
+                       Model.TopicMatch Model.Broker Proofs.TopicP Proofs.SubTrieP Proofs.BrokerBasicP.
 Open Scope N_scope.
 
 (* ================================================================== *)
@@ -617,7 +617,7 @@ Definition hs_body (c : N) (k : conn) (v5 : bool) (subid : N) (topics : list top
     let '(d', existed) := db_subscribe (k_cid k) sb (b_subs s0) in
     let s1 := set_subs d' s0 in
     let '(s2, o2) :=
-      if negb (v5 && shared) && ((negb existed && negb (tq_rh t =? 2)) || (tq_rh t =? 0))
+      if negb shared && ((negb existed && negb (tq_rh t =? 2)) || (tq_rh t =? 0))
       then replay_retained c k sb s1 else (s1, []) in
     (s2, o0 ++ o2, cs ++ [code])
   else (s0, o0, cs ++ [code]).
@@ -697,6 +697,8 @@ Proof.
   destruct p; cbn [handle_packet]; try (split; [apply wframe_refl|repeat constructor]).
   - (* PUBLISH *)
     destruct (has_wild topic); [split; [apply wframe_refl|constructor]|].
+    match goal with |- context [if ?b then HErrRead s (Some 130) else _] => destruct b end;
+      [split; [apply wframe_refl|constructor]|].
     match goal with |- context [if ?b then HErrRead s (Some 147) else _] => destruct b end;
       [split; [apply wframe_refl|constructor]|].
     match goal with |- context [handle_publish c ?K] => set (k' := K) end.
@@ -748,7 +750,7 @@ Qed.
 Lemma write_publish_ok c k m :
   kview (fst (write_publish c k m)) = kview k /\ Forall (okout c) (snd (write_publish c k m)).
 Proof.
-  unfold write_publish. destruct ((k_v k =? 5) && (0 <? k_client_alias_max k)).
+  unfold write_publish. destruct ((k_v k =? 5) && (0 <? k_client_alias_max k) && (msg_total_bytes true m + 5 <=? k_client_max_packet k)).
   - destruct (am_check (m_topic m) (k_alias_out k)) as [am' [a ex|]]; cbn [fst snd]; split; try reflexivity;
       repeat constructor.
   - cbn [fst snd]. split; [reflexivity|repeat constructor].
@@ -1645,9 +1647,34 @@ Proof.
         unfold cvk. cbn [set_force k_phase k_cid k_force_remove]. rewrite Ha. intros [= <- <-] H. congruence.
 Qed.
 
+Lemma send_unconnected_inv c k p s :
+  BInv s -> nget c (b_conns s) = Some k -> k_phase k <> PhConnected -> BInv (fst (send_unconnected c k p s)).
+Proof.
+  intros HI Hk Hn. unfold send_unconnected. destruct (k_phase k) eqn:Ep; try exact HI; try congruence.
+  - cbn [fst]. eapply BInvG_cframe; [|exact HI]. apply cframe_upd_conn.
+    unfold cv, cvk. rewrite Hk, Ep. reflexivity.
+  - destruct p; try exact HI.
+    destruct ((k_v k =? 5) && (0 <? qos)); [|exact HI].
+    destruct (k_quota k =? 0); [now apply conn_gone_inv|].
+    cbn [fst]. eapply BInvG_frame; [|exact HI]. eapply frame_upd_conn_k; [exact Hk|reflexivity].
+  - destruct p; try exact HI.
+    destruct ((k_v k =? 5) && (0 <? qos)); [|exact HI]. now apply conn_gone_inv.
+Qed.
+
 Lemma step_event_inv s e : BInv s -> BInv (fst (step_event s e)).
 Proof.
-  intros HI. destruct e as [c cn|c|c p|c|m|cid|ms| |ms|]; cbn [step_event].
+  intros HI.
+  assert (HSend : forall c p, BInv (fst (step_event s (ESend c p)))).
+  { intros c p. cbn [step_event].
+    destruct (nget c (b_conns s)) as [k|] eqn:Hk; [|exact HI].
+    destruct (k_phase k) eqn:Ep; try (apply send_unconnected_inv; [exact HI|exact Hk|congruence]).
+    destruct (handle_packet_frame c k p s Hk) as [F _].
+    destruct (handle_packet c k p s) as [s' o|s' o code|s' code]; cbn [hres_st] in F.
+    * cbn [fst]. eapply BInvG_cframe; [apply wframe_cframe|]; eauto.
+    * pose proof (fail_conn_inv c code false s' (BInvG_cframe _ _ _ (wframe_cframe _ _ F) HI)) as H.
+      destruct (fail_conn c code false s') as [s'' o']. exact H.
+    * apply fail_conn_inv. eapply BInvG_cframe; [apply wframe_cframe|]; eauto. }
+  destruct e as [c cn|c|c p|c p n|c|m|cid|ms| |ms|]; cbn [step_event].
   - (* EConnect *)
     pose proof (conn_gone_inv c s HI) as H0. pose proof (conn_gone_cv_self c s) as Hc.
     destruct (conn_gone c s) as [s0 o0]. cbn [fst] in *.
@@ -1657,20 +1684,14 @@ Proof.
     destruct (conn_gone c s) as [s0 o0]. cbn [fst] in *.
     eapply BInvG_cframe; [|exact H0]. apply cframe_upd_conn. now rewrite Hc.
   - (* ESend *)
-    destruct (nget c (b_conns s)) as [k|] eqn:Hk; [|exact HI].
-    destruct (k_phase k) eqn:Ep; try exact HI.
-    + cbn [fst]. eapply BInvG_cframe; [|exact HI]. apply cframe_upd_conn.
-      unfold cv, cvk. rewrite Hk, Ep. reflexivity.
-    + destruct (handle_packet_frame c k p s Hk) as [F _].
-      destruct (handle_packet c k p s) as [s' o|s' o code|s' code]; cbn [hres_st] in F.
-      * cbn [fst]. eapply BInvG_cframe; [apply wframe_cframe|]; eauto.
-      * pose proof (fail_conn_inv c code false s' (BInvG_cframe _ _ _ (wframe_cframe _ _ F) HI)) as H.
-        destruct (fail_conn c code false s') as [s'' o']. exact H.
-      * apply fail_conn_inv. eapply BInvG_cframe; [apply wframe_cframe|]; eauto.
-    + destruct p; try exact HI.
-      destruct ((k_v k =? 5) && (0 <? qos)); [|exact HI].
-      destruct (k_quota k =? 0); [now apply conn_gone_inv|].
-      cbn [fst]. eapply BInvG_frame; [|exact HI]. eapply frame_upd_conn_k; [exact Hk|reflexivity].
+    apply (HSend c p).
+  - (* ESendSz *)
+    fold (step_event s (ESendSz c p n)).
+    destruct (step_event_sz s c p n) as [E|(k & Hk & Hp & _ & [[code E]|[E|[q E]]])]; rewrite E.
+    + apply HSend.
+    + now apply fail_conn_inv.
+    + now apply fail_conn_inv.
+    + apply fail_conn_inv. eapply BInvG_frame; [|exact HI]. eapply frame_upd_conn_k; [exact Hk|reflexivity].
   - (* EClose *)
     pose proof (conn_gone_inv c s HI) as H0. destruct (conn_gone c s) as [s0 o0]. exact H0.
   - (* EApiPublish *)
@@ -1826,20 +1847,16 @@ Lemma step_event_sends s e c' p :
   In (OSend c' p) (snd (step_event s e)) ->
   match e with
   | EConnect c _ => c' = c
-  | ESend c _ => c' = c /\ exists k, nget c (b_conns s) = Some k /\ (k_phase k = PhConnected \/ k_phase k = PhFresh)
+  | ESend c _ | ESendSz c _ _ =>
+      c' = c /\ exists k, nget c (b_conns s) = Some k /\ (k_phase k = PhConnected \/ k_phase k = PhFresh)
   | _ => False
   end.
 Proof.
-  destruct e as [c cn|c|c pk|c|m|cid|ms| |ms|]; cbn [step_event].
-  - pose proof (conn_gone_nosend c s) as H0. destruct (conn_gone c s) as [s0 o0].
-    pose proof (handle_connect_sendto c cn s0) as H1. destruct (handle_connect c cn s0) as [s1 o1]. cbn [snd] in *.
-    intros Hin. apply in_app_or in Hin as [Hin|Hin].
-    + apply filter_In in Hin as [Hin _]. now apply nosend_not_in in Hin.
-    + eapply sendto_in; eauto.
-  - pose proof (conn_gone_nosend c s) as H0. destruct (conn_gone c s) as [s0 o0]. cbn [snd] in *.
-    now apply nosend_not_in.
-  - destruct (nget c (b_conns s)) as [k|] eqn:Hk; [|intros []].
-    destruct (k_phase k) eqn:Ep; [| | |intros []|intros []].
+  assert (HSend : forall c pk, In (OSend c' p) (snd (step_event s (ESend c pk))) ->
+            c' = c /\ exists k, nget c (b_conns s) = Some k /\ (k_phase k = PhConnected \/ k_phase k = PhFresh)).
+  { intros c pk. cbn [step_event].
+    destruct (nget c (b_conns s)) as [k|] eqn:Hk; [|intros []].
+    destruct (k_phase k) eqn:Ep; unfold send_unconnected; rewrite ?Ep; [| | | |intros []].
     + cbn [snd]. intros [H|[]]. injection H as <- _. split; [reflexivity|]. exists k. auto.
     + intros Hin. assert (c' = c); [|split; [assumption|exists k; auto]].
       destruct (handle_packet_frame c k pk s Hk) as [_ Ho].
@@ -1852,6 +1869,24 @@ Proof.
     + intros Hin. exfalso. destruct pk; try destruct Hin.
       destruct ((k_v k =? 5) && (0 <? qos)); [|destruct Hin].
       destruct (k_quota k =? 0); [|destruct Hin]. now apply (nosend_not_in _ _ _ (conn_gone_nosend c s)) in Hin.
+    + intros Hin. exfalso. destruct pk; try destruct Hin.
+      destruct ((k_v k =? 5) && (0 <? qos)); [|destruct Hin].
+      now apply (nosend_not_in _ _ _ (conn_gone_nosend c s)) in Hin. }
+  destruct e as [c cn|c|c pk|c pk n|c|m|cid|ms| |ms|]; [| |apply HSend| |..]; cbn [step_event].
+  - pose proof (conn_gone_nosend c s) as H0. destruct (conn_gone c s) as [s0 o0].
+    pose proof (handle_connect_sendto c cn s0) as H1. destruct (handle_connect c cn s0) as [s1 o1]. cbn [snd] in *.
+    intros Hin. apply in_app_or in Hin as [Hin|Hin].
+    + apply filter_In in Hin as [Hin _]. now apply nosend_not_in in Hin.
+    + eapply sendto_in; eauto.
+  - pose proof (conn_gone_nosend c s) as H0. destruct (conn_gone c s) as [s0 o0]. cbn [snd] in *.
+    now apply nosend_not_in.
+  - (* ESendSz *)
+    fold (step_event s (ESendSz c pk n)).
+    destruct (step_event_sz s c pk n) as [E|(k & Hk & Hp & _ & [[code E]|[E|[q E]]])]; rewrite E; [apply HSend| | |];
+      intros Hin; (assert (c' = c); [|split; [assumption|exists k; auto]]).
+    + destruct (fail_conn_sends c code true s) as [Hf _]. eapply sendto_in; eauto.
+    + destruct (fail_conn_sends c (Some 149) false s) as [Hf _]. eapply sendto_in; eauto.
+    + destruct (fail_conn_sends c (Some 149) false (upd_conn c (set_quota q k) s)) as [Hf _]. eapply sendto_in; eauto.
   - pose proof (conn_gone_nosend c s) as H0. destruct (conn_gone c s) as [s0 o0]. cbn [snd] in *.
     intros Hin. apply filter_In in Hin as [Hin _]. now apply nosend_not_in in Hin.
   - destruct (deliver_quiet [] m s) as [_ D]. destruct (deliver [] m s) as [[s' o] b]. cbn [fst snd] in *.
@@ -1964,18 +1999,13 @@ Definition reopens (c0 : N) (e : event) : bool :=
 
 Lemma step_event_closed s e c0 : reopens c0 e = false -> closed_at s c0 -> closed_at (fst (step_event s e)) c0.
 Proof.
-  intros Hre H. destruct e as [c cn|c|c pk|c|m|cid|ms| |ms|]; cbn [step_event reopens] in *.
-  - apply N.eqb_neq in Hre.
-    pose proof (conn_gone_closed c s c0 H) as H0. destruct (conn_gone c s) as [s0 o0]. cbn [fst] in *.
-    pose proof (handle_connect_closed c cn s0 c0 (not_eq_sym Hre) H0) as H1.
-    destruct (handle_connect c cn s0) as [s1 o1]. exact H1.
-  - apply N.eqb_neq in Hre.
-    pose proof (conn_gone_closed c s c0 H) as H0. destruct (conn_gone c s) as [s0 o0]. cbn [fst] in *.
-    apply closed_upd_other; auto.
-  - destruct (nget c (b_conns s)) as [k|] eqn:Hk; [|exact H].
+  intros Hre H.
+  assert (HSend : forall c pk, closed_at (fst (step_event s (ESend c pk))) c0).
+  { intros c pk. cbn [step_event].
+    destruct (nget c (b_conns s)) as [k|] eqn:Hk; [|exact H].
     assert (Hne : k_phase k <> PhClosed -> c0 <> c).
     { intros Hp ->. unfold closed_at, phase_at in H. rewrite Hk in H. cbn in H. congruence. }
-    destruct (k_phase k) eqn:Ep; try exact H.
+    destruct (k_phase k) eqn:Ep; unfold send_unconnected; rewrite ?Ep; try exact H.
     + cbn [fst]. apply closed_upd_other; [apply Hne; discriminate|exact H].
     + destruct (handle_packet_frame c k pk s Hk) as [F _].
       destruct (handle_packet c k pk s) as [s' o|s' o code|s' code]; cbn [hres_st] in F.
@@ -1987,6 +2017,22 @@ Proof.
       destruct ((k_v k =? 5) && (0 <? qos)); [|exact H].
       destruct (k_quota k =? 0); [now apply conn_gone_closed|].
       cbn [fst]. apply closed_upd_other; [apply Hne; discriminate|exact H].
+    + destruct pk; try exact H.
+      destruct ((k_v k =? 5) && (0 <? qos)); [|exact H]. now apply conn_gone_closed. }
+  destruct e as [c cn|c|c pk|c pk n|c|m|cid|ms| |ms|]; [| |apply HSend| |..]; cbn [step_event reopens] in *.
+  - apply N.eqb_neq in Hre.
+    pose proof (conn_gone_closed c s c0 H) as H0. destruct (conn_gone c s) as [s0 o0]. cbn [fst] in *.
+    pose proof (handle_connect_closed c cn s0 c0 (not_eq_sym Hre) H0) as H1.
+    destruct (handle_connect c cn s0) as [s1 o1]. exact H1.
+  - apply N.eqb_neq in Hre.
+    pose proof (conn_gone_closed c s c0 H) as H0. destruct (conn_gone c s) as [s0 o0]. cbn [fst] in *.
+    apply closed_upd_other; auto.
+  - (* ESendSz *)
+    fold (step_event s (ESendSz c pk n)).
+    destruct (step_event_sz s c pk n) as [E|(k & Hk & Hp & _ & [[code E]|[E|[q E]]])]; rewrite E; [apply HSend| | |];
+      apply fail_conn_closed; try exact H.
+    apply closed_upd_other; [|exact H].
+    intros ->. unfold closed_at, phase_at in H. rewrite Hk in H. cbn in H. congruence.
   - pose proof (conn_gone_closed c s c0 H) as H0. destruct (conn_gone c s) as [s0 o0]. exact H0.
   - destruct (deliver_quiet [] m s) as [F _]. destruct (deliver [] m s) as [[s' o] b]. cbn [fst] in *.
     eapply closed_frame; eauto.
@@ -2000,7 +2046,7 @@ Proof.
   - apply (fold_inv (fun s0 => closed_at s0 c0)).
     + intros s0 o0 cd H0. destruct (release_will_quiet (fst cd) s0) as [F _].
       destruct (release_will (fst cd) s0) as [s' o']. cbn [fst] in *. eapply closed_frame; eauto.
-    + generalize (filter (fun cd => snd cd <? b_now s) (b_offline s)). intros l. revert s H.
+    + clear HSend. generalize (filter (fun cd => snd cd <? b_now s) (b_offline s)). intros l. revert s H.
       induction l as [|cd r IH]; intros s H; cbn [fold_left]; [exact H|]. apply IH. exact H.
   - set (s0 := set_time (b_now s + ms) (b_rt s + ms) s).
     assert (H0 : closed_at s0 c0) by exact H.
@@ -2035,8 +2081,10 @@ Theorem nothing_to_closed_step s e c0 p :
   reopens c0 e = false -> closed_at s c0 -> ~ In (OSend c0 p) (snd (step s e)).
 Proof.
   intros Hre H Hin. rewrite step_outputs in Hin. apply in_app_or in Hin as [Hin|Hin].
-  - apply step_event_sends in Hin. destruct e as [c cn|c|c pk|c|m|cid|ms| |ms|]; try exact Hin.
+  - apply step_event_sends in Hin. destruct e as [c cn|c|c pk|c pk n|c|m|cid|ms| |ms|]; try exact Hin.
     + cbn [reopens] in Hre. subst c. now rewrite N.eqb_refl in Hre.
+    + destruct Hin as [-> (k & Hk & Hp)]. unfold closed_at, phase_at in H. rewrite Hk in H. cbn in H.
+      destruct Hp; congruence.
     + destruct Hin as [-> (k & Hk & Hp)]. unfold closed_at, phase_at in H. rewrite Hk in H. cbn in H.
       destruct Hp; congruence.
   - revert Hin. apply poll_all_not_att, closed_not_att. now apply step_event_closed.
@@ -2529,6 +2577,7 @@ Lemma handle_packet_subs c k p s :
 Proof.
   intros Hp. destruct p; try discriminate; cbn [handle_packet]; try reflexivity.
   - destruct (has_wild topic); [reflexivity|].
+    match goal with |- context [if ?b then HErrRead s (Some 130) else _] => destruct b end; [reflexivity|].
     match goal with |- context [if ?b then HErrRead s (Some 147) else _] => destruct b end; [reflexivity|].
     now rewrite handle_publish_subs.
   - cbn [hres_st]. apply release_queue_subs.
@@ -2625,15 +2674,11 @@ Qed.
 
 Lemma step_event_subsinv s e : BInv s -> SubsInv s -> SubsInv (fst (step_event s e)).
 Proof.
-  intros HI HS. destruct e as [c cn|c|c p|c|m|cid|ms| |ms|]; cbn [step_event].
-  - pose proof (conn_gone_inv c s HI) as H0. pose proof (conn_gone_cv_self c s) as Hc.
-    pose proof (conn_gone_subsinv _ c s HI HS) as S0.
-    destruct (conn_gone c s) as [s0 o0]. cbn [fst] in *.
-    pose proof (handle_connect_subsinv c cn s0 H0 Hc S0) as S1. destruct (handle_connect c cn s0) as [s1 o1]. exact S1.
-  - pose proof (conn_gone_subsinv _ c s HI HS) as S0. destruct (conn_gone c s) as [s0 o0]. cbn [fst] in *.
-    revert S0. apply SubsInv_ext; [reflexivity|auto].
-  - destruct (nget c (b_conns s)) as [k|] eqn:Hk; [|exact HS].
-    destruct (k_phase k) eqn:Ep; try exact HS.
+  intros HI HS.
+  assert (HSend : forall c p, SubsInv (fst (step_event s (ESend c p)))).
+  { intros c p. cbn [step_event].
+    destruct (nget c (b_conns s)) as [k|] eqn:Hk; [|exact HS].
+    destruct (k_phase k) eqn:Ep; unfold send_unconnected; rewrite ?Ep; try exact HS.
     + assert (Ha : attached (k_phase k) = true) by now rewrite Ep.
       pose proof (handle_packet_subsinv c k p s HI HS Hk Ha) as S1.
       destruct (handle_packet_frame c k p s Hk) as [F _].
@@ -2646,6 +2691,22 @@ Proof.
       destruct ((k_v k =? 5) && (0 <? qos)); [|exact HS].
       destruct (k_quota k =? 0); [now apply (conn_gone_subsinv None)|].
       cbn [fst]. revert HS. apply SubsInv_ext; [reflexivity|auto].
+    + destruct p; try exact HS.
+      destruct ((k_v k =? 5) && (0 <? qos)); [|exact HS]. now apply (conn_gone_subsinv None). }
+  destruct e as [c cn|c|c p|c p n|c|m|cid|ms| |ms|]; [| |apply HSend| |..]; cbn [step_event].
+  - pose proof (conn_gone_inv c s HI) as H0. pose proof (conn_gone_cv_self c s) as Hc.
+    pose proof (conn_gone_subsinv _ c s HI HS) as S0.
+    destruct (conn_gone c s) as [s0 o0]. cbn [fst] in *.
+    pose proof (handle_connect_subsinv c cn s0 H0 Hc S0) as S1. destruct (handle_connect c cn s0) as [s1 o1]. exact S1.
+  - pose proof (conn_gone_subsinv _ c s HI HS) as S0. destruct (conn_gone c s) as [s0 o0]. cbn [fst] in *.
+    revert S0. apply SubsInv_ext; [reflexivity|auto].
+  - (* ESendSz *)
+    fold (step_event s (ESendSz c p n)).
+    destruct (step_event_sz s c p n) as [E|(k & Hk & Hp & _ & [[code E]|[E|[q E]]])]; rewrite E; [apply HSend| | |];
+      try (now apply fail_conn_subsinv).
+    apply fail_conn_subsinv.
+    + eapply BInvG_frame; [|exact HI]. eapply frame_upd_conn_k; [exact Hk|reflexivity].
+    + revert HS. apply SubsInv_ext; [reflexivity|auto].
   - pose proof (conn_gone_subsinv _ c s HI HS) as S0. destruct (conn_gone c s) as [s0 o0]. exact S0.
   - destruct (deliver_quiet [] m s) as [F _]. destruct (deliver [] m s) as [[s' o] b]. cbn [fst] in *.
     eapply SubsInv_frame; eauto.
@@ -3104,6 +3165,26 @@ Proof.
     + intros c cid f H _. apply cv_some in H as (k & Hk & _ & Ha & <-). now apply (E1 c).
 Qed.
 
+Lemma session_alive_def (cid : str) (s : st) :
+  session_alive cid s <->
+  (exists dl, aget cid (b_offline s) = Some dl /\ b_now s <= dl) \/
+  (exists c0 k0 se, aget cid (b_online s) = Some c0 /\ nget c0 (b_conns s) = Some k0 /\
+                    aget cid (b_sessions s) = Some se /\ takeover_expiry k0 se (b_cfg s) <> 0).
+Proof. reflexivity. Qed.
+
+Lemma takeover_expiry_def (k : conn) (se : session) (cf : cfg) :
+  takeover_expiry k se cf =
+  if (k_v k =? 5) && k_got_disconnect k
+  then N.min (match k_disc_sei k with Some x => x | None => se_expiry se end) (c_session_expiry cf)
+  else se_expiry se.
+Proof. reflexivity. Qed.
+
+Lemma connect_expiry_def (cn : connect) (cf : cfg) :
+  connect_expiry cn cf =
+  if cn_ver cn =? 5 then match p_sei (cn_props cn) with Some i => N.min i (c_session_expiry cf) | None => 0 end
+  else if cn_clean cn then 0 else c_session_expiry cf.
+Proof. reflexivity. Qed.
+
 (* Session Present at the level of a whole step: the socket's previous connection, if any, ends first *)
 Theorem resume_iff_step c cn s sp props :
   BInv s -> hc_rejected cn s = false ->
@@ -3120,6 +3201,20 @@ Proof.
   apply in_app_or in Hin as [Hin|Hin].
   - apply filter_In in Hin as [Hin _]. now apply nosend_not_in in Hin.
   - apply HR; [|exact Hin]. now rewrite (hc_rejected_ext cn s s0 Hhooks Hcfg).
+Qed.
+
+(* `hc_rejected cn s = false` is exactly "the CONNACK carries reason code 0" *)
+Lemma connack_success_iff c cn s :
+  hc_rejected cn s = false <-> exists sp props, In (OSend c (KConnack sp 0 props)) (snd (handle_connect c cn s)).
+Proof.
+  split.
+  - intros H. rewrite (handle_connect_accepted c cn s H). apply accept_sends_connack.
+  - intros (sp & props & Hin). rewrite handle_connect_eq in Hin. unfold hc_rejected.
+    destruct (negb (c_allow_zero_len (b_cfg s)) && is_empty (cn_cid cn)); cbn [orb].
+    + destruct Hin as [Hin|[]]. discriminate.
+    + destruct (hc_code cn s =? 0) eqn:E0; [reflexivity|]. cbn [negb] in *. exfalso.
+      destruct Hin as [Hin|[]]. injection Hin as _ Hc _. apply N.eqb_neq in E0.
+      destruct (negb (cn_ver cn =? 5) && (5 <? hc_code cn s)); [discriminate|congruence].
 Qed.
 
 (* ================================================================== *)
